@@ -302,7 +302,17 @@ func (s *mStub) reactions(m mocrelay.ClientMsg) []*mRec {
 		if v == 0 {
 			add(-1, mocrelay.NewServerOKMsg(m.Event.ID, true, "", ""), k)
 		} else {
-			add(-1, mocrelay.NewServerOKMsg(m.Event.ID, false, mergePrefixes[v-1], fmt.Sprintf("reason of child %d for event #%d", s.idx, k)), k)
+			// reason texts: ordinary, bare prefix, leading / trailing blank
+			txt := fmt.Sprintf("reason of child %d for event #%d", s.idx, k)
+			switch (v + k + s.idx) % 5 {
+			case 1:
+				txt = ""
+			case 2:
+				txt = " " + txt
+			case 3:
+				txt += " "
+			}
+			add(-1, mocrelay.NewServerOKMsg(m.Event.ID, false, mergePrefixes[v-1], txt), k)
 		}
 	case *mocrelay.ClientCountMsg:
 		k := s.nCnt
